@@ -296,9 +296,30 @@ class Interp:
         self.loop_hook = None       # callable(interp, st, frame, cfg, head): rule-specific loop-head abstraction
         self.invariants = {}        # adt path -> callable(st, StructV): constrain field ranges (type invariants)
 
+    def stub_for(self, path):
+        if path in self.stubs:
+            return self.stubs[path]
+        if self.stubs and path.startswith('synth_utils::'):
+            from .facts import _tail
+            t = _tail(path, 2)
+            for k, f in self.stubs.items():
+                if k.startswith('synth_utils::') and _tail(k, 2) == t:
+                    return f
+        return None
+
+    def invariant_for(self, path):
+        inv = self.invariants.get(path)
+        if inv is None and self.invariants and isinstance(path, str) and path.startswith('synth_utils::'):
+            from .facts import _tail
+            t = _tail(path, 1)
+            for k, f in self.invariants.items():
+                if k.startswith('synth_utils::') and _tail(k, 1) == t:
+                    return f
+        return inv
+
     def apply_invariants(self, st, v):
         if isinstance(v, StructV):
-            inv = self.invariants.get(v.path)
+            inv = self.invariant_for(v.path)
             if inv is not None:
                 inv(st, v)
             for f in v.fields:
@@ -416,7 +437,7 @@ class Interp:
                 fields = [self.sym_value(st, self.subst_ty(f['ty'], tenv), '%s.%s' % (name, f['name']), tenv, depth + 1)
                           for f in v['fields']]
                 sv = StructV(path, names, fields, targs=tenv)
-                inv = self.invariants.get(path)
+                inv = self.invariant_for(path)
                 if inv is not None:
                     inv(st, sv)
                 return sv
@@ -1717,8 +1738,9 @@ class Interp:
             cands.append((res['path'], res['args']))
         cands.append((cal['def'], cal['args']))
         for path, ga in cands:
-            if path in self.stubs:
-                out = self.stubs[path](self, st, fr, t, args)
+            sf = self.stub_for(path)
+            if sf is not None:
+                out = sf(self, st, fr, t, args)
                 return self.finish_model(st, fr, t, out)
         for path, ga in cands:
             if path in self.facts.fns and path not in self.no_inline:
